@@ -21,6 +21,7 @@ EXTRA = {  # further registered checks worth running for a change (it may break 
     'C03-1': [], 'C03-2': ['C02', 'C06'], 'C03-3': [], 'C05-1': ['C06'], 'C05-2': ['C16'], 'C05-3': ['C08'],
     'C08-1': ['C07'], 'C09-1': ['C06'], 'C16-1': ['C08'], 'C16-2': [], 'C16-3': ['C05'],
     'C17-1': ['C04'], 'C17-2': ['C04'], 'C17-3': ['C06', 'C02'],
+    'C02-6': ['C04'], 'C04-6': ['C16'], 'C05-4': ['C01'], 'C05-6': ['C06'], 'C16-6': ['C06'],
     'C10-2': ['C11'], 'C11-1': ['C10'], 'C11-2': ['C10'], 'C11-3': ['C14'], 'C14-1': ['C10'],
 }
 REGISTERED = {c['property_id'] for c in json.load(open('/verif/MANIFEST.json'))['checks']}
@@ -48,6 +49,8 @@ def run_checks(sid, repo, verif, env):
             t = time.time()
             r = sh('cd %s && timeout 4000 python3 run.py quick %s' % (verif, p), env=env)
             out = r.stdout
+            os.makedirs('/tmp/mx_logs', exist_ok=True)
+            open('/tmp/mx_logs/%s_%s.log' % (sid, p), 'w').write(out)
             viol = [l for l in out.splitlines() if l.startswith('VIOLATION')]
             fails = [l.strip()[:300] for l in out.splitlines() if re.match(r'^\s+\[FAIL\]', l)]
             inco = [l.strip()[:200] for l in out.splitlines() if re.match(r'^\s+\[INCO\]', l)]
@@ -92,11 +95,13 @@ def main():
         repo, verif = os.path.join(w, 'repo'), os.path.join(w, 'verif')
         sh('git -C /repo worktree remove --force %s 2>/dev/null; rm -rf %s; mkdir -p %s' % (repo, w, w))
         sh('git -C /repo worktree add --detach %s HEAD -q' % repo)
+        sh('cp /repo/Cargo.lock %s/Cargo.lock' % repo)  # untracked in git, needed for offline builds
         sh('rsync -a --exclude .cache --exclude target --exclude .git --exclude replays --exclude evidence /verif/ %s/' % verif)
         os.makedirs(os.path.join(verif, 'evidence'), exist_ok=True)
         for f in ('kani/Cargo.toml', 'replay/Cargo.toml'):
             p = os.path.join(verif, f)
-            open(p, 'w').write(open(p).read().replace('"/repo/', '"%s/' % repo))
+            txt = open(p).read().replace('"/repo/', '"%s/' % repo)
+            open(p, 'w').write(txt)
         env = dict(os.environ, VERIF_REPO=repo, VERIF_JOBS=os.environ.get('MX_JOBS', '5'), VERIF_MEM_GB=os.environ.get('MX_MEM_GB', '20'))
         while True:
             try:
